@@ -178,6 +178,11 @@ func (a *attempts) source(fixed int) ro.Observable[any] {
 			go func() { defer a.wg.Done(); time.Sleep(50 * time.Microsecond); play() }()
 		}
 		return func() {
+			if a.mode == "async" {
+				// a teardown that takes a moment (it stops a producer, closes a connection): the attempt is released when it has RETURNED;
+				// an operator that moves on as soon as the subscription is marked closed subscribes the next attempt inside this window
+				time.Sleep(200 * time.Microsecond)
+			}
 			a.mu.Lock()
 			a.live--
 			a.mu.Unlock()
